@@ -106,6 +106,9 @@ fn twin_ok(c: &[Vec<u8>], db: i64) -> bool {
     let name = c[0].to_ascii_uppercase();
     match &name[..] {
         b"RANDOMKEY" | b"SRANDMEMBER" | b"SPOP" | b"FLUSHDB" | b"FLUSHALL" | b"DBSIZE" => false,
+        // a positive remaining time is clock-dependent and an EVAL reply is not canonicalised by command name:
+        // TTL / PTTL run inside scripts only on keys without a deadline (mc- cases) and in the stored witness
+        b"TTL" | b"PTTL" => false,
         // execute_database works on database 0 whatever the script's database is
         b"KEYS" => db == 0,
         // -(i64::MIN) panics in the executor (finding lua-decrby-min)
@@ -231,7 +234,7 @@ fn simple_call(r: &mut Rng, keys: &mut Vec<Vec<u8>>) -> Vec<E> {
         11 => vec![s(b"LPOP"), k(r, keys)],
         12 => vec![s(b"NOSUCHCMD"), k(r, keys)],
         13 => vec![s(b"GET")],
-        14 => vec![s(b"APPEND"), k(r, keys), s(b"zz")],
+        14 => if r.chance(1, 2) { vec![s(b"APPEND"), k(r, keys), s(b"zz")] } else { vec![s(if r.chance(1, 2) { b"TTL" } else { b"PTTL" }), k(r, keys)] },
         _ => vec![s(b"TYPE"), k(r, keys)],
     }
 }
@@ -474,8 +477,9 @@ pub fn judge(c: &Case, outs: &[Vec<Tok>]) -> Vec<String> {
                     let ss = strip(&s);
                     // inputs on which the two paths are known to act differently may diverge silently
                     if let Some(cl) = command_class(&dargs) { if STATE_CLASSES.contains(&cl) && state_class.is_none() { state_class = Some(cl); } }
+                    let bin_arg = dargs.iter().skip(1).any(|a| std::str::from_utf8(a).is_err());
+                    if bin_arg && state_class.is_none() { state_class = Some("lua-lossy"); }
                     if want != ss {
-                        let bin_arg = dargs.iter().skip(1).any(|a| std::str::from_utf8(a).is_err());
                         // what this implementation's conversions make of the direct reply (incl. table.sort)
                         let via = { let l = impl_to_lua(&d, pcall);
                                     let l = if sorted { match l { L::Table(t) if t.iter().all(|x| matches!(x, L::Str(_))) => { let mut t = t; t.sort_by(|a, b| match (a, b) { (L::Str(x), L::Str(y)) => x.cmp(y), _ => std::cmp::Ordering::Equal }); L::Table(t) } _ => L::Abort } } else { l };
